@@ -129,6 +129,7 @@ impl Proj {
             did = *d as i64;
         }
         let mut pd: i64 = -1;
+        let mut l4cs = true;
         let mut total: i64 = -1;
         if did >= 0 {
             let (size, sport, dport, is_icmp) = self.sizes[&(did as u32)];
@@ -145,20 +146,28 @@ impl Proj {
                 }
             } else {
                 let exp = dgram_payload(did as u32, size);
+                // the echo header as the world sent it (type 8 from A, type 0 back from B), checksum over the message
+                let ty = if from == 0 { 8u8 } else { 0u8 };
+                let mut hdr = vec![ty, 0, 0, 0, 0x42, 0x42, 0, 1];
+                let mut whole = hdr.clone();
+                whole.extend_from_slice(&exp);
+                let c = csum(&whole);
+                hdr[2..4].copy_from_slice(&c.to_be_bytes());
                 for (i, b) in ip.l4_bytes.iter().enumerate() {
                     let k = ip.frag_off + i;
-                    if k < 8 {
-                        continue;
-                    }
-                    if k - 8 >= exp.len() || exp[k - 8] != *b {
+                    let want = if k < 8 { Some(hdr[k]) } else { exp.get(k - 8).cloned() };
+                    if want != Some(*b) {
                         pd = i as i64;
+                        if k == 2 || k == 3 {
+                            l4cs = false;
+                        }
                         break;
                     }
                 }
             }
         }
         json!({"from": from, "ident": ip.ident, "foff": ip.frag_off, "mf": ip.mf, "plen": plen, "iplen": ip.total_len, "proto": ip.proto,
-               "did": did, "pd": pd, "total": total, "hcs": ip.hdr_csum_ok, "wf": ip.wf, "frag": ip.mf || ip.frag_off > 0,
+               "did": did, "pd": pd, "l4cs": l4cs, "total": total, "hcs": ip.hdr_csum_ok, "wf": ip.wf, "frag": ip.mf || ip.frag_off > 0,
                "src": addr_str(&ip.src), "dst": addr_str(&ip.dst)})
     }
 }
